@@ -45,6 +45,7 @@ import os
 import random
 import subprocess
 import sys
+import time
 from typing import Any, Callable, Dict, List, Optional, Tuple
 
 from . import common
@@ -1090,6 +1091,8 @@ def check(run: common.Run, drv: common.Driver, rng: random.Random, tier: str) ->
     order.insert(0, "widths")
     widths_seen: Dict[str, set] = {}
     _reported.clear()
+    timing: Dict[str, Any] = {"generate_compile_values": 0.0, "python_checks": 0.0, "waiting_for_gcc_and_driver": 0.0, "c_checks": 0.0,
+                              "slowest_program": (0.0, "", 0)}
     state = {"py_c_equal": 0, "compile_errors": []}
     with R.Scratch("bpv-c16-") as sc, cf.ThreadPoolExecutor(16) as pool:
         for flags in CFLAG_SETS:
@@ -1098,6 +1101,7 @@ def check(run: common.Run, drv: common.Driver, rng: random.Random, tier: str) ->
         for b0 in range(0, len(order), plan["batch"]):
             batch = order[b0:b0 + plan["batch"]]
             jobs = []
+            t0 = time.time()
             for fam in batch:
                 idx += 1
                 schema, tags = FAMILIES[fam](rng, wc)
@@ -1128,17 +1132,30 @@ def check(run: common.Run, drv: common.Driver, rng: random.Random, tier: str) ->
                             cases.append(CCase(mi, vi, 1, 0x00))
                         longest = max(longest, len(dump(expected_msg(m, v))))
                 cflags = rng.choice(CFLAG_SETS)
+                if max(G.leaf_count(G.TRef(m)) for m in p.messages) > 3000:
+                    cflags = ("-O0",)  # the shim assigns leaf by leaf: straight-line code gcc optimises slowly
                 outcap = 2 * longest + 4096
                 fut = pool.submit(c_build_and_run, p, sc, cflags, cases, values, outcap)
                 jobs.append((p, values, kinds, cases, cflags, fut))
+            timing["generate_compile_values"] += time.time() - t0
             for (p, values, kinds, cases, cflags, fut) in jobs:
+                t1 = time.time()
                 py_parsed = check_python(run, p, values, kinds, rng, widths_seen)
-                check_c(run, p, values, kinds, cases, cflags, fut.result(), py_parsed, state)
+                t2 = time.time()
+                res = fut.result()
+                t3 = time.time()
+                check_c(run, p, values, kinds, cases, cflags, res, py_parsed, state)
+                t4 = time.time()
+                timing["python_checks"] += t2 - t1
+                timing["waiting_for_gcc_and_driver"] += t3 - t2
+                timing["c_checks"] += t4 - t3
+                timing["slowest_program"] = max(timing["slowest_program"], (round(t4 - t1, 2), p.tags[0], p.idx))
     cov = {}
     for k, ws in widths_seen.items():
         cov[k] = {"count": len(ws), "missing": [w for w in range(1, 65) if w not in ws]}
     run.notes["width_coverage"] = cov
     run.notes["python_equals_c_cases"] = state["py_c_equal"]
+    run.notes["timing_s"] = {k: (round(v, 1) if isinstance(v, float) else v) for k, v in timing.items()}
     if state["compile_errors"]:
         run.notes["compiler_rejected_programs"] = state["compile_errors"]
 
@@ -1207,6 +1224,7 @@ def check_python(run: common.Run, p: Program, values, kinds, rng: random.Random,
         for mi, m in enumerate(p.messages):
             record_distribution(run, p, m, widths_seen)
             cls = getattr(pm.mod, G.py_name(m))
+            nleaves = G.leaf_count(G.TRef(m))
             # all instances of the class are alive before the first is serialised
             objs = []
             for v in values[mi]:
@@ -1228,13 +1246,13 @@ def check_python(run: common.Run, p: Program, values, kinds, rng: random.Random,
                     continue
                 note_case(run, p, m, v, "python", "assigned", (kinds[mi][vi],))
                 run.count("case:python-assigned")
-                got = py_observe(run, p, m, v, obj, exp, "assigned", full=True)
+                got = py_observe(run, p, m, v, obj, exp, "assigned", full=(vi < 2 or kinds[mi][vi] == "rand"))
                 if got is not None:
                     parsed[(mi, vi)] = got
                 if vi == 0 and got is not None:
                     run.sample({"language": "python", "message": G.py_name(m), "to_json": clip(dump(got), 300)}, limit=2)
                 # decoded message: expectation from what it holds
-                if vi % 2 == 0 or kinds[mi][vi] == "rand":
+                if (vi % 2 == 0 or kinds[mi][vi] == "rand") and nleaves <= 1500:
                     try:
                         o2 = cls()
                         o2.decode(obj.encode())
